@@ -321,7 +321,10 @@ theorem C05_flat_roundtrip (orc : Oracle) (pe : PEnv) (c c0 : Cfg)
     (hal : All2 Aligned c.opts c0.opts)
     (hpw : List.Pairwise (fun a b => titleEq c0.flags.nocase a.name b.name = false) c.opts) :
     (parseBuf orc pe c0 (cfgPrint c)).rc = 0 ∧
-    All2 (fun r o => r.vals = o.vals) (parseBuf orc pe c0 (cfgPrint c)).cfg.opts c.opts := by
+    All2 (fun r o => r.vals = o.vals) (parseBuf orc pe c0 (cfgPrint c)).cfg.opts c.opts ∧
+    All2 (fun r o0 => r.info = o0.info ∧ r.flags.list = o0.flags.list ∧ r.comment = o0.comment)
+      (parseBuf orc pe c0 (cfgPrint c)).cfg.opts c0.opts ∧
+    (parseBuf orc pe c0 (cfgPrint c)).cfg.info.pff = c0.info.pff := by
   -- the text and its tokens
   have htext : cfgPrint c = printOpts none 0 c.opts := by
     cases c with
@@ -335,7 +338,7 @@ theorem C05_flat_roundtrip (orc : Oracle) (pe : PEnv) (c c0 : Cfg)
   let f0 : Frame := { cfg := c1 }
   let m0 : PM := startPM c1 (cfgPrint c) 0
   have hat0 : AtItem f0 := ⟨rfl, rfl, by intro r o hr _; simp [f0] at hr⟩
-  obtain ⟨f', done, e1, hat', hlev', hopts', hfl', hvals⟩ :=
+  obtain ⟨f', done, e1, hat', hlev', hopts', hfl', hpf', hvals, hdecl⟩ :=
     flat_steps orc c.opts c0.opts ts m0 f0 [] [] hft hal rfl rfl hat0 hopts1
       (by intro p hp; simp at hp) (by rw [hfl1]; exact hpw)
   have hnp := flatToks_no_rparen hft
@@ -356,7 +359,9 @@ theorem C05_flat_roundtrip (orc : Oracle) (pe : PEnv) (c c0 : Cfg)
         { setSrcs { m0 with frames := [f'] } S with frames := [{ f' with cfg := f'.cfg.setLine (f'.cfg.line + nl) }], status := .accepted } :=
     fun nl S => pstep_eof_top orc _ f' nl rfl rfl hat'.st hlev' hat'.nd
   unfold parseBuf parseFp
-  show (finishParse c1 (parseLoop orc pe (fuelFor pe (cfgPrint c)) m0) 0).rc = 0 ∧ All2 _ (finishParse c1 (parseLoop orc pe (fuelFor pe (cfgPrint c)) m0) 0).cfg.opts c.opts
+  show (finishParse c1 (parseLoop orc pe (fuelFor pe (cfgPrint c)) m0) 0).rc = 0 ∧ All2 _ (finishParse c1 (parseLoop orc pe (fuelFor pe (cfgPrint c)) m0) 0).cfg.opts c.opts ∧
+    All2 _ (finishParse c1 (parseLoop orc pe (fuelFor pe (cfgPrint c)) m0) 0).cfg.opts c0.opts ∧
+    (finishParse c1 (parseLoop orc pe (fuelFor pe (cfgPrint c)) m0) 0).cfg.info.pff = c0.info.pff
   unfold parseLoop
   rw [hF, hloop, hround]
   simp only [m1]
@@ -371,10 +376,77 @@ theorem C05_flat_roundtrip (orc : Oracle) (pe : PEnv) (c c0 : Cfg)
   have hMf : M.frames = [{ f' with cfg := f'.cfg.setLine (f'.cfg.line + (lexInitial pe.env 0 (List.replicate k' c_nl)).nl) }] := by rw [← hM]
   simp only [afterTok, hMp]
   rw [loop_stopped orc pe F M (by rw [hMs]; simp)]
-  refine ⟨by simp [finishParse, hMs], ?_⟩
-  simp only [finishParse, hMf, collapse, collapseInto, opts_setLine]
-  rw [hopts']
-  simpa using hvals
+  have hpfl : ∀ (x : Cfg) (n : Nat), (x.setLine n).info.pff = x.info.pff := by intro x n; cases x; rfl
+  have hpf1 : c1.info.pff = c0.info.pff := by cases c0; rfl
+  refine ⟨by simp [finishParse, hMs], ?_, ?_, ?_⟩
+  · simp only [finishParse, hMf, collapse, collapseInto, opts_setLine]
+    rw [hopts']
+    simpa using hvals
+  · simp only [finishParse, hMf, collapse, collapseInto, opts_setLine]
+    rw [hopts']
+    simpa using hdecl
+  · simp only [finishParse, hMf, collapse, collapseInto]
+    rw [hpfl, hpf', hpf1]
+
+/-- the printed form of a plain option depends only on its name, type, list flag and values -/
+theorem printOpt_congr (r o : Opt) (hp : Printable o) (hname : r.name = o.name) (hty : r.ty = o.ty)
+    (hpc : r.info.printCb = false) (hl : r.flags.list = o.flags.list) (hv : r.vals = o.vals) (hc : r.comment = none) :
+    printOpt none 0 r = printOpt none 0 o := by
+  have hpr : Printable r :=
+    ⟨by rw [hty]; exact hp.ty, hpc, hc, by rw [hname]; exact hp.name0, by rw [hv, hty]; exact hp.cells,
+     by intro h; rw [hv]; exact hp.scalar1 (by rw [← hl]; exact h)⟩
+  by_cases hlist : o.flags.list = true
+  · rw [print_list o hp hlist, print_list r hpr (by rw [hl]; exact hlist), hname, hty, hv]
+  · have hl' : o.flags.list = false := by simpa using hlist
+    obtain ⟨v, hvv⟩ := hp.scalar1 hl'
+    rw [print_scalar o v hp hl' hvv, print_scalar r v hpr (by rw [hl]; exact hl') (by rw [hv]; exact hvv), hname, hty]
+
+/-- three lists related position by position -/
+theorem printOpts_congr : ∀ (done os os0 : List Opt),
+    All2 (fun r o => r.vals = o.vals) done os →
+    All2 (fun r o0 => r.info = o0.info ∧ r.flags.list = o0.flags.list ∧ r.comment = o0.comment) done os0 →
+    All2 Aligned os os0 → (∀ o ∈ os, Printable o) → (∀ o0 ∈ os0, o0.comment = none ∧ o0.info.printCb = false) →
+    printOpts none 0 done = printOpts none 0 os := by
+  intro done
+  induction done with
+  | nil => intro os os0 h1 _ _ _ _; cases h1; rfl
+  | cons r rs ih =>
+    intro os os0 h1 h2 h3 hp hf
+    cases h1 with
+    | cons hv hvs =>
+      rename_i o os'
+      cases h2 with
+      | cons hd hds =>
+        rename_i o0 os0'
+        cases h3 with
+        | cons ha has =>
+          obtain ⟨hname, hty, hlist, _⟩ := ha
+          obtain ⟨hi, hl, hc⟩ := hd
+          have hf0 := hf o0 (by simp)
+          have e := printOpt_congr r o (hp o (by simp))
+            (by show r.info.name = o.name; rw [hi]; exact hname)
+            (by show r.info.ty = o.ty; rw [hi]; exact hty)
+            (by rw [hi]; exact hf0.2) (by rw [hl, hlist]) hv (by rw [hc]; exact hf0.1)
+          simp only [printOpts, hides, Bool.false_eq_true, if_false]
+          rw [e, ih os' os0' hvs hds has (fun x hx => hp x (by simp [hx])) (fun x hx => hf x (by simp [hx]))]
+
+/-- **C05 (flat configurations: printing the re-parsed configuration reproduces the first text).** With the target a
+context of the same declarations that carries no annotations, print callbacks or print filter (as `cfg_init` makes it),
+the text printed for the re-parsed configuration is, byte for byte, the text that was parsed - so a further
+parse-and-print cycle changes nothing either. -/
+theorem C05_flat_fixpoint (orc : Oracle) (pe : PEnv) (c c0 : Cfg)
+    (hpff : c.info.pff = none) (hpr : ∀ o ∈ c.opts, Printable o)
+    (hal : All2 Aligned c.opts c0.opts)
+    (hpw : List.Pairwise (fun a b => titleEq c0.flags.nocase a.name b.name = false) c.opts)
+    (hpff0 : c0.info.pff = none) (hfresh : ∀ o0 ∈ c0.opts, o0.comment = none ∧ o0.info.printCb = false) :
+    cfgPrint (parseBuf orc pe c0 (cfgPrint c)).cfg = cfgPrint c := by
+  obtain ⟨_, hv, hd, hp⟩ := C05_flat_roundtrip orc pe c c0 hpff hpr hal hpw
+  have e1 : ∀ (x : Cfg), x.info.pff = none → cfgPrint x = printOpts none 0 x.opts := by
+    intro x hx
+    cases x with
+    | mk info opts => simp only [Cfg.info] at hx; simp [cfgPrint, printCfg, hx, effPff, Cfg.opts]
+  rw [e1 _ (by rw [hp]; exact hpff0), printOpts_congr _ _ _ hv hd hal hpr hfresh]
+  exact (e1 c hpff).symm
 
 /-! Non-vacuity: an ordinary flat configuration meets the hypotheses (an integer, a string with a space and a quote, an
 integer list; the target context holds other values). -/
